@@ -14,7 +14,7 @@ def confirm(sd):
     instr = re.sub(r"<repo[^>]*>/", "", instr)
     instr = re.sub(r"/tmp/wt\d*_C\d+/", "", instr)          # the agent's own worktree: paths are relative to the repo root
     cps = re.findall(r"cp\s+(\S+)\s+([\w/.]+/)", instr)
-    m = re.search(r"(go1?\.?2?6?\s*test\s+-vet=off[^;#(\n]*)", instr)
+    m = re.search(r"(go1?\.?2?6?\s*test\s+-vet=off(?:'[^']*'|[^;#(\n'])*)", instr)
     if not cps or not m:
         return "cannot parse demo instructions"
     gotest = m.group(1).strip()
